@@ -285,6 +285,11 @@ def run_word(ctx, h, nletters, prefix_ops=12):
                         ctx.count('cmd/batch-excluded')
                         break
                     ctx.evaluations += 1
+                    if w.dump() != w2.dump() and order_only(mm, w.dump(), w2.dump()):
+                        # the twin drifted by the order of an opposite end alone: an undo somewhere before restored
+                        # that order differently in the two worlds (finding F-C06-1 restores it in no defined order)
+                        ctx.count('cmd/batch-twin-order-drift')
+                        break
                     if w.dump() != w2.dump() or bool(raised) != (stop is not None):
                         fail('batch', f'execute(c1, …, cn) with {specs}: the model is not what executing them one call at a time gives '
                                       f'(the call {"raised " + raised if raised else "returned"}; one at a time '
@@ -521,6 +526,8 @@ def replay(ctx, data):
                 spec = letter[1]
                 spec = tuple(spec) if spec[0] != 'Compound' else ('Compound', [tuple(s) for s in spec[1]])
                 cw.stack.execute(cw.build(spec))
+            elif letter[0] == 'exec-batch':
+                cw.stack.execute(*[cw.build(tuple(s)) for s in letter[1]])
             elif letter[0] == 'undo':
                 cw.stack.undo()
             else:
